@@ -88,7 +88,9 @@ func checkC05(w *Worker) {
 		base, ok := baseCache[key]
 		if !ok {
 			verifshim.PermHook = nil
-			base = runApp(c)
+			cs := c
+			cs.SortedMaps = true
+			base = runApp(cs)
 			baseCache[key] = base
 		}
 		var visits *[]mapVisit
